@@ -58,7 +58,7 @@ def body(case, rec):
         rec.exclude('short_panel_close_to_much_longer_one')
         return
     scale = (refint.diag(g, tt, tx, 'coarse') * refint.diag(g, st_, sx, 'coarse'))**0.5
-    exact = bool(case.get('exact')) and not g.circle
+    exact = bool(case.get('exact')) and g.polygon
     SL = operator(live, exact)
     cj = dict(case)
     cj['_pair'] = {'test': [tt, tx], 'trial': [st_, sx], 'class': sc + '|' + tc}
@@ -112,8 +112,8 @@ def body(case, rec):
 def cases():
     causal = ['equal', 'equal', 'touch_after', 'separated', 'overlap']
     add = lambda c, e, r: dict(c, exact=e, real=r)
-    tg = st.builds(add, pairs.target_cases(time_classes=causal), st.booleans(), st.booleans())
-    hi = st.builds(add, pairs.history_cases(), st.booleans(), st.booleans())
+    tg = st.builds(add, pairs.target_cases(time_classes=causal, curves=pairs.WITH_MIXED), st.booleans(), st.booleans())
+    hi = st.builds(add, pairs.history_cases(curves=pairs.WITH_MIXED), st.booleans(), st.booleans())
     return st.one_of(tg, tg, hi)
 
 
